@@ -32,7 +32,8 @@ CONSTANTS ProviderTargets,   \* request types of the provider answered to POST
           EmptyBodyTargets,  \* request types whose valid request has an empty s12:Body
           UnimplTargets,     \* request types the provider answers with a 'not implemented' fault
           MutatingTargets,   \* request types whose acceptance may change MDIB / subscription table
-          Part               \* "all" | "dopost" | "handler" : which requests Init enumerates
+          Part,              \* "all" | "dopost" | "handler" : which requests Init enumerates
+          EmitOnly           \* TRUE: only enumerate and print the requests (no pipeline steps)
 
 VARIABLES req,        \* the abstract request (constant along a behaviour)
           stage,      \* current pipeline stage
@@ -219,7 +220,7 @@ Init == /\ req \in Requests
         /\ out = NoOut
         /\ handled = FALSE /\ validated = FALSE /\ changed = FALSE
         /\ flags = NoFlags
-        /\ PrintT(<<"CASE", ToJson([req |-> req, allowed |-> AllowedKinds(req), must_accept |-> MustAccept(req)])>>)
+        /\ EmitOnly => PrintT(<<"CASE", ToJson([req |-> req, allowed |-> AllowedKinds(req)])>>)
 
 Next_(s) == CASE s = "Read" -> "Decode" [] s = "Decode" -> "Route" [] s = "Route" -> "Parse"
               [] s = "Parse" -> "Validate" [] s = "Validate" -> "Dispatch" [] s = "Dispatch" -> "Handle"
@@ -245,13 +246,6 @@ ReadTok ==
      ELSE /\ Pass("Read") /\ UNCHANGED <<pos, out>>
   /\ UNCHANGED <<req, handled, validated, changed, flags>>
 
-\* the stream ended without a terminal token: a reference reader gives up (never reads on)
-ReadExhausted ==
-  /\ stage = "Read" /\ req.via = "handler" /\ req.method = "POST"
-  /\ pos >= Len(Stream(req.framing))
-  /\ RejectAt("Read")
-  /\ UNCHANGED <<req, pos, handled, validated, changed, flags>>
-
 Step(s) ==
   /\ stage = s
   /\ LET v == Verdict(s, req) IN
@@ -269,20 +263,23 @@ Step(s) ==
           /\ UNCHANGED <<validated, changed>>
   /\ UNCHANGED <<req, pos, flags>>
 
-Decode == Step("Decode")
-Route == Step("Route")
-Parse == Step("Parse")
-Validate == Step("Validate")
-Dispatch == Step("Dispatch")
-Handle == Step("Handle")
+Decode == stage = "Decode" /\ Step("Decode")
+Route == stage = "Route" /\ Step("Route")
+Parse == stage = "Parse" /\ Step("Parse")
+Validate == stage = "Validate" /\ Step("Validate")
+Dispatch == stage = "Dispatch" /\ Step("Dispatch")
+Handle == stage = "Handle" /\ Step("Handle")
 
 Respond == /\ stage = "Respond"
            /\ stage' = "Done"
            /\ UNCHANGED <<req, pos, out, handled, validated, changed, flags>>
 
-Next == ReadTok \/ ReadExhausted \/ Decode \/ Route \/ Parse \/ Validate \/ Dispatch \/ Handle \/ Respond
+Next == ReadTok \/ Decode \/ Route \/ Parse \/ Validate \/ Dispatch \/ Handle \/ Respond
 
 Spec == Init /\ [][Next]_vars /\ WF_vars(Next)
+
+\* enumeration of the domain only (cases are printed by Init when EmitOnly)
+EmitSpec == Init /\ [][UNCHANGED vars]_vars
 
 ---------------------------------------------------------------------------
 (* properties *)
@@ -295,6 +292,9 @@ TypeOK == /\ stage \in Stages
           /\ handled \in BOOLEAN /\ validated \in BOOLEAN /\ changed \in BOOLEAN
 
 Done == stage = "Done"
+
+\* the reader never runs off the end of the stream: every stream ends in a token that ends the Read stage
+ReadProgress == (stage = "Read" /\ req.via = "handler" /\ req.method = "POST") => pos < Len(Stream(req.framing))
 
 \* a response exists and its shape fits its kind:
 \*   proper = success status + the response of the request type; fault = well-formed SOAP fault (any status);
